@@ -9,6 +9,7 @@ import (
 	"pgregory.net/rapid"
 
 	"verifharness/app"
+	"verifharness/model"
 	"verifharness/refdec"
 )
 
@@ -45,6 +46,20 @@ func genC18(t *rapid.T) ModelCase {
 			sp.Results = append(sp.Results, r)
 		}
 	}
+	// a node whose name ends like a translation of another name would (name_<code>): its own
+	// lookups are made in the session's language like everyone else's
+	if chancePct(t, 15, "suffixnode") {
+		var cands []string
+		for _, n := range a.Nodes {
+			if n.Name != "_catch" && n.Name != a.RootName() {
+				cands = append(cands, n.Name)
+			}
+		}
+		if len(cands) > 0 {
+			old := cands[uniformN(t, len(cands), "suffixwhich")]
+			renameNode(a, old, old+"_"+[]string{"nor", "swa", "fra"}[uniformN(t, 3, "suffixlang")])
+		}
+	}
 	modelFriendly(a)
 	mode := c18Modes[uniformN(t, len(c18Modes), "mode")]
 	// half of the cases are served by resource.DbResource over a memdb (templates, labels
@@ -52,9 +67,72 @@ func genC18(t *rapid.T) ModelCase {
 	return ModelCase{App: a, Inputs: genGuidedHistory(t, a, 12, mode.Kind == "persist"), Mode: mode, UseDb: chancePct(t, 50, "usedb")}
 }
 
+// renameNode renames a node everywhere it is referred to.
+func renameNode(a *app.App, old, new string) {
+	for i := range a.Nodes {
+		if a.Nodes[i].Name == old {
+			a.Nodes[i].Name = new
+		}
+		for j := range a.Nodes[i].Code {
+			in := &a.Nodes[i].Code[j]
+			if (in.Op == refdec.MOVE || in.Op == refdec.INCMP || in.Op == refdec.CATCH) && string(in.Sym) == old {
+				in.Sym = refdec.BS(new)
+			}
+		}
+	}
+	for i := range a.Trans {
+		if t, ok := a.Trans[i].Templates[old]; ok {
+			delete(a.Trans[i].Templates, old)
+			a.Trans[i].Templates[new] = t
+		}
+	}
+}
+
+// firstFunctionLanguage serves the history once more, engine-per-request, with a first
+// function configured: at every start of an engine the first function is an external
+// function lookup like any other, made in the language the stored session has.
+func firstFunctionLanguage(c ModelCase) *Violation {
+	if c.Mode.Kind != "persist" {
+		return nil
+	}
+	storage, cleanup := newStorage(c.Mode.Backend)
+	defer cleanup()
+	cp := *c.App
+	cp.Cfg.First = &app.First{}
+	s := app.NewSession(app.NewShared(&cp), c.Mode, storage)
+	lang := ""
+	if code, ok := model.NormaliseLang(c.App.Cfg.Language); ok {
+		lang = code
+	}
+	started := false
+	for i, in := range c.Inputs {
+		if !inputAccepted(string(in)) {
+			continue
+		}
+		n := len(s.FirstSeen)
+		st := s.Request([]byte(in))
+		if st.Panic != "" || st.Exceeded {
+			return nil
+		}
+		if len(s.FirstSeen) > n && started {
+			if got := s.FirstSeen[n].Lang; got != lang {
+				return viol("first-function-language", "request %d (%q): the session's stored language is %q, but the engine's first function was called with language %q on its context", i, in, lang, got)
+			}
+		}
+		if st.ExecErr != "" || st.After == nil {
+			return nil
+		}
+		lang, started = st.After.Lang, true
+	}
+	return nil
+}
+
 func checkC18(c ModelCase) (o Outcome) {
 	asp := diffAspects{position: true, calls: true, callLang: true, lookups: true, lang: true, output: true, cont: true}
 	v, f, discard := modelDiff(c.App, c.Inputs, c.Mode, asp, hooksFor(c))
+	if v == nil && discard == "" {
+		v = firstFunctionLanguage(c)
+	}
 	if c.UseDb {
 		o.class("resource:db")
 	}
